@@ -25,6 +25,7 @@ def sh(cmd, cwd=None, timeout=3600):
 def main():
     args = sys.argv[1:]
     all_checks = "--all-checks" in args
+    owner_only = "--owner-only" in args
     filt = [a for a in args if not a.startswith("--")]
     if sh("git status --porcelain", cwd=REPO).stdout.strip():
         print("refusing to run: /repo has uncommitted changes")
@@ -37,7 +38,7 @@ def main():
             continue
         d = os.path.join(VERIF, "seeded", key)
         owner = key.split("-")[0]
-        props = ["C%02d" % i for i in range(1, 15)] if all_checks else [owner] + EXTRA.get(key, [])
+        props = ["C%02d" % i for i in range(1, 15)] if all_checks else [owner] + ([] if owner_only else EXTRA.get(key, []))
         try:
             r = sh("git apply %s/patch.diff" % d, cwd=REPO)
             if r.returncode != 0:
